@@ -240,7 +240,7 @@ impl <T: ArrayElement> ArrayManipulate<T> for Array<T> {
         values.ndim()?.is_dim_supported(&(1 ..= self.ndim()?).collect::<Vec<usize>>())?;
 
         if let Some(axis) = axis {
-            vec![indices.len()].is_broadcastable(&self.get_shape()?)?;
+            vec![indices.len()].is_broadcastable(&self.get_shape()?[..1])?;
             let mut arrays = self.split_axis(axis)?;
             let self_rem = self.get_shape()?.remove_at(axis);
             let self_rem_len = self_rem.into_iter().product::<usize>();
